@@ -125,6 +125,10 @@ func evRender(lets []evLet, kinds map[string]string) string {
 			e = "All(" + a(0) + ").out"
 		case "rlist":
 			e = "Upto(" + a(0) + ").out"
+		case "sflat":
+			// two lets: the rows, then their names flattened
+			fmt.Fprintf(&b, "%slet %s_rows = %s -> <set of row>(w:\n%s  name = w\n%s)\n", ind, l.V, a(0), ind, ind)
+			e = l.V + "_rows flatten(.name)"
 		case "tset":
 			e = a(0) + " -> <set of int>(x:\n" + ind + "  id = x\n" + ind + "  twice = x * 2\n" + ind + "  tag = " + a(1) + "\n" + ind + ")"
 		case "tform", "tconst":
@@ -214,7 +218,7 @@ func runEvalView(in, out string, _ []string) error {
 				}
 			} else if l.Op == "lcat" {
 				k = "list"
-			} else if l.Op == "union" || l.Op == "tset" {
+			} else if l.Op == "union" || l.Op == "tset" || l.Op == "sflat" {
 				k = "set"
 			} else if l.Op == "lit" {
 				k = l.Args[0].Lit.K
